@@ -14,7 +14,9 @@
 (*   borrow(c, ops)                   borrow_with; ops on the guard; drop  *)
 (*   setlist(c, li, matcher)          get_list_matcher_mut + mutation      *)
 (*   exec(c, fsch, tokens)            parse with fsch, compile, execute    *)
+(*   execv(c, fsch, tokens)           the same for a value expression      *)
 (*   mkval(v)                         Array/Map::try_from_* construction   *)
+(*                                    (every public route must agree)      *)
 (* The result records are what the harness observes at the call's return.  *)
 (***************************************************************************)
 EXTENDS WfParser, WfEval
@@ -51,6 +53,14 @@ DoExec(S, w, op) ==
      ELSE IF op.fsch # c.sch THEN [w |-> w, res |-> ResErr("SchemeMismatch")]
      ELSE [w |-> w, res |-> ResOk(VBool(EvalFilter(r.node, c, S[c.sch])))]
 
+(* a value expression is bound to its scheme exactly like a filter *)
+DoExecV(S, w, op) ==
+  LET c == w[op.c]
+      r == ParseValue(op.ts, S[op.fsch], 128)
+  IN IF ~r.ok THEN [w |-> w, res |-> ResErr("ParseError")]
+     ELSE IF op.fsch # c.sch THEN [w |-> w, res |-> ResErr("SchemeMismatch")]
+     ELSE [w |-> w, res |-> ResOk(EvalValue(r.node, c, S[c.sch]))]
+
 Apply(S, w, op) ==
   IF op.op = "new" THEN [w |-> Append(w, NewCtx(S, op.sch)), res |-> ResOk(VInt(IntOfNat(Len(w) + 1)))]
   ELSE IF op.op = "set" THEN DoSet(S, w, op)
@@ -75,6 +85,7 @@ Apply(S, w, op) ==
   ELSE IF op.op = "setlist"
        THEN [w |-> [w EXCEPT ![op.c].lists[op.li] = op.m], res |-> ResOk(Nil)]
   ELSE IF op.op = "exec" THEN DoExec(S, w, op)
+  ELSE IF op.op = "execv" THEN DoExecV(S, w, op)
   ELSE IF op.op = "mkval"
        THEN [w |-> w, res |-> IF WellTyped(op.v) THEN ResOk(op.v) ELSE ResErr("TypeMismatch")]
   ELSE [w |-> w, res |-> ResErr("unknown-op")]
